@@ -203,6 +203,8 @@ def _raw_faults(rng, writing):
     r = rng.random()
     if r < 0.35:
         return []
+    if r < 0.41:
+        return [{"call": "open", "kind": rng.choice(["eacces", "enoent", "eisdir", "emfile"])}]
     kinds = ["short", "short", "eintr"] if r < 0.75 else (["short", "eintr", "eio", "enospc"] if writing else ["short", "eintr", "eio"])
     return [{"call": rng.randrange(6), "kind": rng.choice(kinds), "arg": rng.choice([1, 1, 2, 3, 7])}
             for _ in range(rng.randint(1, 4))]
@@ -448,6 +450,19 @@ def execute(run, props):
                     res.faults[fk + "_read"] += 1
                 hard = [fk for _, fk in fired if fk in ("eio",)]
                 label = "parse_file(" + pattern(a) + ")"
+                opened = [fk for c, fk in fired if c == "open"]
+                if opened:
+                    res.faults_eff["open_" + opened[0]] += 1
+                    if got[0] == "raised" and isinstance(got[1], ValueError) and both:
+                        res.event(step, label, "both", "")      # arguments checked before the file is touched: fine
+                        continue
+                    if got[0] != "raised" or not isinstance(got[1], OSError) or isinstance(got[1], UnicodeError):
+                        V("file-fault", "parse_file/open-error-not-propagated/" + opened[0], step,
+                          f"opening the file failed ({opened[0].upper()}) but parse_file {got[0]} {got[1] if got[0] == 'raised' else 'a library'}")
+                        return res
+                    res.probes["open_error_propagated_read"] += 1
+                    res.event(step, label, "raised:open-" + opened[0], "")
+                    continue
                 if disk.open_handles != 0:
                     res.probes["handle_left_open"] += 1
                 # reference decoding: CPython's own text layer over the complete bytes (its incremental
@@ -597,6 +612,20 @@ def execute(run, props):
                 for _, fk in fired:
                     res.faults[fk + "_write"] += 1
                 hard = [fk for _, fk in fired if fk in ("eio", "enospc")]
+                opened = [fk for c, fk in fired if c == "open"]
+                if opened and "path" in tgt and not (want[0] == "raised" or both):
+                    res.faults_eff["open_" + opened[0]] += 1
+                    now = disk.get(tgt["path"]) if tgt["path"] in disk.files else None
+                    if got[0] != "raised" or not isinstance(got[1], OSError):
+                        V("file-fault", "write_file/open-error-not-propagated/" + opened[0], step,
+                          f"opening the target failed ({opened[0].upper()}) but write_file {got[0]} {got[1] if got[0] == 'raised' else ''}")
+                        return res
+                    if now != pre_target:
+                        V("file-fault", "write_file/target-changed-although-open-failed", step, "the target could not be opened, yet its content changed")
+                        return res
+                    res.probes["open_error_propagated_write"] += 1
+                    res.event(step, label, "raised:open-" + opened[0], "")
+                    continue
                 if isinstance(fileobj, Recording) and fileobj.closed or (fileobj is not None and not isinstance(fileobj, Recording) and fileobj_closed):
                     V("file-wrapper", "write_file/closed-the-callers-file-object", step,
                       "write_file closed a file object that belongs to the caller (it cannot be read back, rewound or written to again)")
